@@ -17,7 +17,7 @@
 (***************************************************************************)
 EXTENDS Routing, SequencesExt
 
-CONSTANTS SuffixChecked, RootRegexChecked
+CONSTANTS SuffixChecked, RootRegexChecked, RootSuffixChecked
 
 \* ---------- strings the code compares lexicographically ----------
 Ascii == " !\"#$%&'()*+,-./0123456789:;<=>?@ABCDEFGHIJKLMNOPQRSTUVWXYZ[\\]^_`abcdefghijklmnopqrstuvwxyz{|}~"
@@ -45,7 +45,12 @@ WsScore(q, t, i, score) ==
             THEN IF Len(each) = 0 THEN [ok |-> FALSE, score |-> score]
                  ELSE LET col == Index(other, ":")
                           re  == SubSeq(other, col + 1, Len(other) - 1)
+                          cb  == Index(other, "}")
                       IN IF RootRegexChecked /\ col # 0 /\ re # "*" /\ ~ReSearch(re, each)
+                         THEN [ok |-> FALSE, score |-> score]
+                         \* {v}suffix in a root path: the suffix must be present (third repair; FALSE = before)
+                         ELSE IF RootSuffixChecked /\ col = 0 /\ cb # 0 /\ cb < Len(other)
+                                 /\ ~HasSuffix(each, SubSeq(other, cb + 1, Len(other)))
                          THEN [ok |-> FALSE, score |-> score]
                          ELSE WsScore(q, t, i + 1, score + 1)
             ELSE IF each # other THEN [ok |-> FALSE, score |-> score]
